@@ -121,6 +121,7 @@ OUTER_REPS = {
     "vector in 3-D": (3, [1, 2, 4]),
     "bivector in 4-D (shuffled)": (4, [12, 3, 10, 5, 6, 9]),
     "vector in 1-D": (1, [1]),
+    "quadvector in 5-D": (5, [15, 23, 27, 29, 30]),
 }
 
 
@@ -202,7 +203,8 @@ def outerexp(ctx):
                              f"stored, not which are non-zero", fn)
 
 
-@rule("C19.outertrig", props=["C19"], min_instances=6, mutants=[
+@rule("C19.outertrig", props=["C19"], min_instances=9, mutants=[
+    ("outercos selects the terms by grade 0, 4, 8", ("codegen", "    even_Ws = codegen_outerexp(x, asterms=True)[0::2]\n    outercos = reduce(operator.add, even_Ws)\n    return outercos", "    outerexp = codegen_outerexp(x)\n    return outerexp.grade(*range(0, x.algebra.d + 1, 4))")),
     ("outersin takes the even terms", ("codegen", "    odd_Ws = codegen_outerexp(x, asterms=True)[1::2]", "    odd_Ws = codegen_outerexp(x, asterms=True)[0::2]")),
     ("outercos skips the scalar 1", ("codegen", "    even_Ws = codegen_outerexp(x, asterms=True)[0::2]", "    even_Ws = codegen_outerexp(x, asterms=True)[2::2]")),
     ("outertan is cos / sin", ("codegen", "    outertan = outersin / outercos", "    outertan = outercos / outersin")),
@@ -210,7 +212,7 @@ def outerexp(ctx):
 def outertrig(ctx):
     """outersin / outercos are the odd / even parts of outerexp, outertan = outersin / outercos."""
     repo = ctx.repo
-    for name in ("bivector in 6-D", "vector in 3-D"):
+    for name in ("bivector in 6-D", "vector in 3-D", "quadvector in 5-D"):
         d, keys = OUTER_REPS[name]
         for cg, parity in (("codegen_outersin", 1), ("codegen_outercos", 0)):
             c = f"codegen.{cg}#{name}"
@@ -228,7 +230,22 @@ def outertrig(ctx):
                 ctx.violation(c, f"{cg[8:]} of a {name} is not the {'odd' if parity else 'even'} part of the outer "
                                  f"exponential: got blades {sorted(got)}, expected {sorted(want)}", fn)
         c = f"codegen.codegen_outertan#{name}"
-        fn, out, coeffs, log = run_outer(ctx, repo, "codegen_outertan", d, keys, c)
+        try:
+            fn, out, coeffs, log = run_outer(ctx, repo, "codegen_outertan", d, keys, c)
+        except Unknown:
+            # not evaluable: still decidable is the necessary condition that outertan takes a (geometric) inverse or
+            # quotient at all - outersin * <something built with the outer product only> is not outersin / outercos
+            from ..astx import inline_self_calls, walk_shallow as _ws
+            tfn = inline_self_calls(repo, "codegen", ctx.func("codegen.codegen_outertan"))
+            divides = any(isinstance(n, ast.BinOp) and isinstance(n.op, ast.Div) for n in ast.walk(tfn)) or any(
+                isinstance(n, ast.Call) and (call_name(n) or "").split(".")[-1] in ("inv", "div", "__truediv__", "codegen_inv", "codegen_div")
+                for n in ast.walk(tfn))
+            if not divides:
+                ctx.violation(c, "outertan is computed without any quotient or inverse of outercos (outersin * <an expression built with "
+                                 "other products>): for operands whose outercos is not 1 + <nilpotent of square 0> this is not "
+                                 "outersin * inverse(outercos)", ctx.func("codegen.codegen_outertan"))
+                continue
+            raise
         if out[0] == "raise":
             ctx.violation(c, f"raises {out[1]}", fn)
             continue
